@@ -11,7 +11,8 @@ Apply(r) == CASE r.op = "new" -> New(r.t, r.s, r.l) [] r.op = "append_child" -> 
               [] r.op = "mate" -> Mate(r.a, r.b) [] OTHER -> FALSE
 \* node = <<type, start, len, next, prev, child, tail, mate>>
 Same(r) == \A i \in used' : /\ i <= Len(r.nodes)
-                            /\ r.nodes[i] = <<ty'[i], st'[i], ln'[i], nxt'[i], prv'[i], chd'[i], tl'[i], mt'[i]>>
+                            /\ LET o == r.nodes[i] IN                          \* (o[7], the tail pointer, is bookkeeping of the primitives: C15 does not speak of it, so a
+                               <<o[1], o[2], o[3], o[4], o[5], o[6], o[8]>> = <<ty'[i], st'[i], ln'[i], nxt'[i], prv'[i], chd'[i], mt'[i]>>      \*  different tail discipline is not refused -- it shows as soon as a later primitive links through it)
 TNext == /\ k <= Len(Tr) /\ k' = k + 1
          /\ LET r == Tr[k] IN
             IF r.e = "reset" THEN used' = {} /\ nxt' = Z /\ prv' = Z /\ chd' = Z /\ tl' = Z /\ st' = Z /\ ln' = Z /\ mt' = Z /\ ty' = Z /\ hist' = <<>>
